@@ -116,6 +116,26 @@ func execSMServer(toks []string) string {
 		var outs []string
 		ls := strings.Split(locs, ",")
 		ss := strings.Split(segs, "^")
+		// connections that completed the handshake, with their metadata as it was then
+		type hs struct {
+			c    diam.Conn
+			meta string
+		}
+		var hmu sync.Mutex
+		var done []hs
+		stop := make(chan struct{})
+		go func() {
+			for {
+				select {
+				case c := <-machine.HandshakeNotify():
+					hmu.Lock()
+					done = append(done, hs{c, showMetaGo(c)})
+					hmu.Unlock()
+				case <-stop:
+					return
+				}
+			}
+		}()
 		for i, l := range ls {
 			if i >= len(ss) {
 				break
@@ -125,7 +145,17 @@ func execSMServer(toks []string) string {
 			log.mu.Unlock()
 			outs = append(outs, runSMConn(machine, log, l, ss[i]))
 		}
-		return strings.Join(outs, " || ")
+		close(stop)
+		res := strings.Join(outs, " || ")
+		hmu.Lock()
+		for i, h := range done {
+			if now := showMetaGo(h.c); now != h.meta {
+				res += fmt.Sprintf(" META:changed=%d:%s->%s", i, h.meta, now)
+				break
+			}
+		}
+		hmu.Unlock()
+		return res
 	}
 	return runSMConn(machine, log, loc, segs)
 }
@@ -152,7 +182,8 @@ func runSMConn(machine *sm.StateMachine, log *evLog, loc, segs string) string {
 		cmu.Unlock()
 	}
 	wrapped := &closeSpy{memConn: mc, onClose: origClose}
-	if _, err := diam.NewConn(wrapped, "mem", machine, dict.Default); err != nil {
+	kp := &keeper{machine: machine}
+	if _, err := diam.NewConn(wrapped, "mem", kp, dict.Default); err != nil {
 		return "err"
 	}
 	for _, s := range strings.Split(segs, "|") {
@@ -175,9 +206,58 @@ func runSMConn(machine *sm.StateMachine, log *evLog, loc, segs string) string {
 	cmu.Unlock()
 	mc.peerEOF()
 	waitFor(mc.isClosed, time.Second)
+	// messages the application kept (dispatched ones, reported ones) are as they were
+	kept := ""
+	if n := kp.changed(); n > 0 {
+		kept = fmt.Sprintf(" KEPT:changed=%d", n)
+	}
 	log.mu.Lock()
 	defer log.mu.Unlock()
-	return strings.Join(append(log.evs, "end="+end), " ")
+	return strings.Join(append(log.evs, "end="+end), " ") + kept
+}
+
+// keeper wraps the state machine: every message dispatched on the connection, and every message
+// handed out in an error report, is remembered together with what it looked like at that moment
+type keeper struct {
+	machine *sm.StateMachine
+	mu      sync.Mutex
+	msgs    []*diam.Message
+	fps     []string
+}
+
+func (k *keeper) keep(m *diam.Message) {
+	if m == nil {
+		return
+	}
+	fp := ""
+	guard(func() { fp = fmt.Sprintf("%+v|%s", *m.Header, m.String()) })
+	k.mu.Lock()
+	k.msgs = append(k.msgs, m)
+	k.fps = append(k.fps, fp)
+	k.mu.Unlock()
+}
+func (k *keeper) ServeDIAM(c diam.Conn, m *diam.Message) { k.keep(m); k.machine.ServeDIAM(c, m) }
+func (k *keeper) Error(er *diam.ErrorReport) {
+	if er != nil {
+		k.keep(er.Message)
+	}
+	k.machine.Error(er)
+}
+func (k *keeper) ErrorReports() <-chan *diam.ErrorReport { return k.machine.ErrorReports() }
+
+// changed reports how many kept messages no longer look as they did
+func (k *keeper) changed() int {
+	k.mu.Lock()
+	defer k.mu.Unlock()
+	n := 0
+	for i, m := range k.msgs {
+		fp := ""
+		guard(func() { fp = fmt.Sprintf("%+v|%s", *m.Header, m.String()) })
+		if fp != k.fps[i] {
+			n++
+		}
+	}
+	return n
 }
 
 type closeSpy struct {
